@@ -112,6 +112,7 @@ func runWal(c *hx.Ctx, r *hx.Rng, st *state) bool {
 	var recs []walRec
 	var data []byte
 	tbl := map[string]string{} // comp hex -> "payload hex:flag"
+	validRows := map[string]struct{}{} // payloads FastMarshalMultiRows produced
 	addTbl := func(comp, payload []byte, ok bool) {
 		f := "0"
 		if ok {
@@ -119,9 +120,9 @@ func runWal(c *hx.Ctx, r *hx.Rng, st *state) bool {
 		}
 		tbl[hexBytes(comp)] = hexBytes(payload) + ":" + f
 	}
-	mk := func() (walRec, []byte, []byte) {
+	mk := func(force byte) (walRec, []byte, []byte) {
 		var rec walRec
-		if r.Chance(55) {
+		if force == 1 || (force == 0 && r.Chance(55)) {
 			rec.ty = 1
 			rec.rows = genRows(r)
 			p, err := influx.FastMarshalMultiRows(nil, rec.rows)
@@ -129,6 +130,7 @@ func runWal(c *hx.Ctx, r *hx.Rng, st *state) bool {
 				panic(err)
 			}
 			rec.payload = p
+			validRows[string(p)] = struct{}{}
 		} else {
 			rec.ty = 2
 			rec.payload = make([]byte, r.Intn(200))
@@ -145,7 +147,7 @@ func runWal(c *hx.Ctx, r *hx.Rng, st *state) bool {
 	}
 	var lastComp []byte
 	for k := r.Intn(4); k > 0; k-- {
-		rec, fr, comp := mk()
+		rec, fr, comp := mk(0)
 		recs = append(recs, rec)
 		data = append(data, fr...)
 		lastComp = comp
@@ -156,7 +158,7 @@ func runWal(c *hx.Ctx, r *hx.Rng, st *state) bool {
 	switch r.Intn(8) {
 	case 0:
 	case 1, 2, 3: // torn at a random point
-		torn, tornFrame, tornComp = mk()
+		torn, tornFrame, tornComp = mk(0)
 		cut := r.Intn(len(tornFrame))
 		data = append(data, tornFrame[:cut]...)
 		tail = "torn"
@@ -164,7 +166,7 @@ func runWal(c *hx.Ctx, r *hx.Rng, st *state) bool {
 			tail = "torn-in-header"
 		}
 	case 4, 5: // exactly the header survived
-		torn, tornFrame, tornComp = mk()
+		torn, tornFrame, tornComp = mk(0)
 		if len(lastComp) > 0 && r.Chance(60) {
 			// the crash image the defect needed: same length as the record before
 			binary.BigEndian.PutUint32(tornFrame[1:5], uint32(len(lastComp)))
@@ -188,10 +190,16 @@ func runWal(c *hx.Ctx, r *hx.Rng, st *state) bool {
 			tail = "not-snappy"
 		}
 	}
-	_ = torn
-	// what the pooled buffer held before
+	// what the pooled buffer held before. A reader that wrongly decodes the buffer hands its
+	// content to the row unmarshaller when the torn record is a line-protocol one; the row codec
+	// trusts its count field (make([]Row, n)), so only well-formed row batches are left there
+	// (a regression then shows as fabricated rows, not as the harness running out of memory).
 	var stale []byte
-	switch r.Intn(4) {
+	pick := r.Intn(4)
+	if torn.ty == 1 && pick == 3 {
+		pick = 2
+	}
+	switch pick {
 	case 0:
 	case 1: // a complete compressed record of exactly the torn length
 		if tornComp != nil {
@@ -199,8 +207,8 @@ func runWal(c *hx.Ctx, r *hx.Rng, st *state) bool {
 		} else if lastComp != nil {
 			stale = append(stale, lastComp...)
 		}
-	case 2: // another valid record
-		_, _, comp := mk()
+	case 2: // another valid record (of the torn record's type)
+		_, _, comp := mk(torn.ty)
 		stale = comp
 	default:
 		stale = make([]byte, r.Intn(64))
@@ -209,6 +217,67 @@ func runWal(c *hx.Ctx, r *hx.Rng, st *state) bool {
 		}
 		if dec, err := snappy.Decode(nil, stale); err == nil {
 			addTbl(stale, dec, false)
+		}
+	}
+	// Guard for the harness itself: a reader that (wrongly) decodes an incompletely read buffer
+	// hands garbage to the row codec, which trusts its count field (`make([]Row, n)`) — the real
+	// consequence is the process dying of memory exhaustion, which would take the harness with
+	// it. Simulate what such a reader would see for this tail and buffer; keep only cases whose
+	// fabricated batch is a well-formed one (a record delivered twice, or the buffer's previous
+	// record): that is reported as a violation instead.
+	if tornFrame != nil && (tail == "torn" || tail == "header-only") {
+		// the torn part is the suffix of data that is a prefix of tornFrame (header possibly
+		// patched): find it by length
+		tl := 0
+		for k := len(tornFrame); k >= 5; k-- {
+			if len(data) >= k && bytes.Equal(data[len(data)-k+5:], tornFrame[5:k]) && data[len(data)-k] == tornFrame[0] {
+				tl = k
+				break
+			}
+		}
+		if tl >= 5 {
+			n := int(binary.BigEndian.Uint32(data[len(data)-tl+1 : len(data)-tl+5]))
+			avail := data[len(data)-tl+5:]
+			unsafeBuf := func(st []byte) bool {
+				if n > 1<<24 {
+					return true
+				}
+				if data[len(data)-tl] != 1 {
+					return false
+				}
+				// the buffer as the reader has it when it reaches the torn record: every
+				// complete record before left its compressed body at the front
+				full := append([]byte(nil), st...)
+				rest := data[:len(data)-tl]
+				for len(rest) >= 5 {
+					m := int(binary.BigEndian.Uint32(rest[1:5]))
+					if m > len(rest)-5 {
+						break
+					}
+					if m > len(full) {
+						full = append(full, make([]byte, m-len(full))...)
+					}
+					copy(full, rest[5:5+m])
+					rest = rest[5+m:]
+				}
+				filled := make([]byte, n)
+				copy(filled, full)
+				copy(filled, avail)
+				dec, err := snappy.Decode(nil, filled)
+				if err != nil {
+					return false
+				}
+				// garbage that snappy accepts: the row codec trusts every count in it
+				_, known := validRows[string(dec)]
+				return !known
+			}
+			if unsafeBuf(stale) {
+				stale = nil
+			}
+			if unsafeBuf(stale) {
+				data = data[:len(data)-tl]
+				tail = "clean"
+			}
 		}
 	}
 	keys := make([]string, 0, len(tbl))
